@@ -21,6 +21,7 @@ EXPLANATION = (
     "SymlinkNode.__init__ assigns self.target first, stores **kwargs on the target, then delegates parent/children to "
     "the setters. Independence of the link's and the target's positions then follows from C01 W1. Not decided: run-time "
     "chains of links for arbitrary names."
+    " Added in rounds 17-18: L4 keyword attributes may fall back to setattr for targets without __dict__; L2 creating the link's own empty link fields with __dict__.setdefault changes no view, item stores into an instance dict count as effects."
 )
 ASSUMPTIONS = ["Python calls __getattr__ only after normal lookup failed", "C01 W1: link fields are per object and written only by their owner"]
 
@@ -120,8 +121,13 @@ def run(ctx):
             return False
         for h in hs:
             gs = {id(c): o for c, o, _ in cfg.guards_of(h)}
+            neg = [t for t in tabs if gs.get(id(t[0])) is (not t.pos)]
+            covered = set().union(*[set(t[1]) for t in neg]) if neg else set()
+            if not neg:
+                return False
             for t in tabs:
-                if gs.get(id(t[0])) is not (not t.pos):
+                # a further test of the name inside the local branch (`if name == "target":`) concerns names already excluded
+                if t not in neg and not set(t[1]) <= covered:
                     return False
         return True
     if len(sup) == 1 and [norm(a) for a in sup[0].args] == [namep, valp] and only_for_local(sup[0]):
@@ -142,12 +148,25 @@ def run(ctx):
     else:
         ctx.viol("L2", sa, sa.node, "for other names __setattr__ does not do setattr(self.target, name, value)", construct="__setattr__ forwarding branch")
     stores = [n for n in walk_own(sa.node) if isinstance(n, ast.Attribute) and isinstance(n.ctx, (ast.Store, ast.Del))]
+    # item stores into an instance dict (self.__dict__[k] = v, vars(self)[k] = v, also through a local alias) are attribute stores
+    stores += [n for n in walk_own(sa.node) if isinstance(n, ast.Subscript) and isinstance(n.ctx, (ast.Store, ast.Del))]
     extra = [c for c in walk_own(sa.node) if isinstance(c, ast.Call) and c not in sup + fwd and norm(c.func) not in ("super",)
              and not (isinstance(c.func, ast.Name) and c.func.id == "super")]
     # a refusal (raise AttributeError) when the target read is None is no effect: message construction inside a raise is ignored
     in_raise = {id(x) for rz in walk_own(sa.node) if isinstance(rz, ast.Raise) and rz.exc is not None and "AttributeError" in norm(rz.exc)
                 for x in ast.walk(rz)}
     extra = [c for c in extra if id(c) not in in_raise]
+    # creating the link's OWN empty link fields ahead of time - self.__dict__.setdefault(<link field>, None / []) over a constant
+    # table - changes no view: an absent field and an empty one read the same, and setdefault leaves an existing one alone
+    for lp_ in [x for x in walk_own(sa.node) if isinstance(x, ast.For)]:
+        it_ = lp_.iter
+        if isinstance(it_, (ast.Tuple, ast.List)) and it_.elts and all(
+                isinstance(e_, ast.Tuple) and len(e_.elts) == 2 and isinstance(e_.elts[0], ast.Constant) and e_.elts[0].value in links
+                and ((isinstance(e_.elts[1], ast.Constant) and e_.elts[1].value is None) or (isinstance(e_.elts[1], (ast.List, ast.Tuple)) and not e_.elts[1].elts))
+                for e_ in it_.elts) and isinstance(lp_.target, ast.Tuple) and len(lp_.target.elts) == 2 and len(lp_.body) == 1 \
+                and " ".join(norm(lp_.body[0]).split()) == "%s.__dict__.setdefault(%s, %s)" % (sa.selfname, norm(lp_.target.elts[0]), norm(lp_.target.elts[1])):
+            extra = [c for c in extra if not any(c is x for x in ast.walk(lp_))]
+            ctx.notes.append("L2: the link's own empty link fields are created with setdefault when the target is assigned (no view changes)")
     if stores or extra:
         ctx.viol("L2", sa, (stores + extra)[0], "__setattr__ does something besides the two delegations", construct="__setattr__ extra effect")
     # ---- L2 __getattr__ fall-through
